@@ -494,6 +494,8 @@ pub fn run(rep: &mut Rep) {
     }
     let mut wa = a.clone();
     wa.max_ops = 12;
+    // in the walks a stream may also change hands: it is polled under a new waker from then on
+    wa.stream_handover = true;
     wa.max_conc = 4;
     wa.max_inbound = 400;
     wa.inbound.push((2, 3, true, SubSel::Op(2)));
